@@ -18,9 +18,10 @@ Contents(maxLen) == { <<l>> \o Body(k, n) : l \in Leads, k \in 0..4, n \in 0..(m
 
 TLVs(id, cs) == { MkTLV(id, c) : c \in cs }
 
-IntTLVs == TLVs(2, Contents(8))
-U32TLVs == UNION { TLVs(id, Contents(5)) : id \in {65, 66, 67, 71} }
-U64TLVs == TLVs(70, Contents(9))
+\* (the empty contents too: a zero-length INTEGER has no octet of its own to take a sign from)
+IntTLVs == TLVs(2, Contents(8) \cup {<<>>})
+U32TLVs == UNION { TLVs(id, Contents(5) \cup {<<>>}) : id \in {65, 66, 67, 71} }
+U64TLVs == TLVs(70, Contents(9) \cup {<<>>})
 StrLens == {0, 1, 2, 127, 128, 255, 256, 1000}
 StrBody(n, k) == [i \in 1..n |-> IF k = 0 THEN 0 ELSE IF k = 1 THEN 255 ELSE (i * 7 + k) % 256]
 StrTLVs == UNION { { MkTLV(id, StrBody(n, k)) : n \in StrLens, k \in 0..3 } : id \in {4, 7, 68} }
